@@ -180,7 +180,7 @@ def case_codec(R: Runner, inp: dict[str, Any]) -> None:
     # strip_html
     h, text = "".join(inp["parts"][0]), "".join(inp["parts"][1])
     R.expect("strip_html", "tags-removed-text-kept", R.both("strip_html", h), text,
-             lambda: "bare-ampersand" if "&" in ENTITY.sub("", text) else
+             lambda: "bare-ampersand" if any("&" in ENTITY.sub("", t) for t in inp["parts"][1]) else
              ("comment" if "<!--" in h else ("script-or-style" if "<s" in h else "")))
     if "<" not in s and ">" not in s:
         R.expect("strip_html", "text-without-markup-unchanged", R.both("strip_html", x), s, q)
